@@ -36,9 +36,10 @@ def env_clean():
 
 def sh(cmd, cwd=None, env=None, timeout=None, input=None, check=False):
     """Run a command, return (rc, stdout+stderr text)."""
-    p = subprocess.run(cmd, cwd=cwd, env=env or env_clean(), timeout=timeout, input=input,
+    kw = {"input": input} if input is not None else {"stdin": subprocess.DEVNULL}
+    p = subprocess.run(cmd, cwd=cwd, env=env or env_clean(), timeout=timeout,
                        stdout=subprocess.PIPE, stderr=subprocess.STDOUT, text=True,
-                       errors="replace")
+                       errors="replace", **kw)
     out = "\n".join(l for l in p.stdout.splitlines() if "conda.cli.condarc" not in l)
     if check and p.returncode != 0:
         raise RuntimeError("command failed: %s\n%s" % (cmd, out[-4000:]))
